@@ -36,13 +36,38 @@ def _walk_own(fnode):
             todo.append(c)
 
 
+def _is_pymodel(filename):
+    return '/pymodels/' in filename.replace('\\', '/')
+
+
+def join_slist(interp, sep, xs):
+    """str.join over a symbolic-length sequence: interpreted from the Python model in pymodels/str_model.py
+    with the loop invariant attached to the call site, keyed 'join#k' (k-th such join of the function)."""
+    from .pymodels import str_model
+    target = None
+    for fr in reversed(interp.frame_stack):
+        if not _is_pymodel(fr.info.filename):
+            target = fr
+            break
+    if target is None:
+        raise Unsupported('str.join over a symbolic-length sequence outside a function')
+    k = target.join_counter
+    target.join_counter = k + 1
+    saved = target.model_site
+    target.model_site = 'join#%d' % k
+    try:
+        return interp.call(str_model.join, [sep, xs], {})
+    finally:
+        target.model_site = saved
+
+
 def find_spec(interp, frame, node):
     ordinal = loop_ordinal(frame.info, node)
-    if frame.info.filename.endswith('functools_model.py'):
+    if _is_pymodel(frame.info.filename):
         # library model: the invariant belongs to the call site (the nearest repository frame)
         for fr in reversed(interp.frame_stack):
-            if not fr.info.filename.endswith('functools_model.py'):
-                key = 'reduce#%d' % fr.reduce_site
+            if not _is_pymodel(fr.info.filename):
+                key = fr.model_site if fr.model_site is not None else 'reduce#%d' % fr.reduce_site
                 spec = interp.reg.loops_by_key.get((fr.info.filename, fr.info.qualname, key))
                 return spec, key
         return None, ordinal
@@ -95,10 +120,10 @@ def _env_of(interp, frame, extra):
     env = {}
     if interp.collect is not None:
         env['yielded'] = interp.collect[1]
-    if frame.info.filename.endswith('functools_model.py'):
+    if _is_pymodel(frame.info.filename):
         # library model: the call site's names are visible to the invariant
         for fr in reversed(interp.frame_stack):
-            if not fr.info.filename.endswith('functools_model.py'):
+            if not _is_pymodel(fr.info.filename):
                 for d in fr.enclosing:
                     env.update(d)
                 env.update(fr.locals)
